@@ -1,3 +1,160 @@
 import FiberModel.DriverUtil
--- stub driver for C16; replaced when the property's model lands
-def main : IO Unit := pure ()
+import FiberModel.C16.Spec
+/-
+Driver for C16. Case fields (after the id):
+  backend(st|mem|ss|sm) extractor single(0/1) idle(secs) trusted(hexlist) ops obs
+see harness/cmd/c16/main.go for the op and observation syntax.
+-/
+open B DriverUtil C16
+
+def tokGen (n : Nat) : Bytes := b "t" ++ natToDec (n + 1)
+def sidGen (n : Nat) : Bytes := b "s" ++ natToDec (n + 1)
+
+def hx (s : String) : Except String Bytes :=
+  match fromHex s with
+  | some v => pure v
+  | none => throw s!"outside-domain: bad hex {s}"
+
+def isAscii (s : Bytes) : Bool := s.all (· < 128)
+def tokenSafe (s : Bytes) : Bool := s.all fun c => isAlpha c || isDigit c || c == 95 || c == 45
+
+def parseUrl (ok sch host : String) : Except String UrlInfo := do
+  if ok != "0" && ok != "1" then throw "outside-domain: url ok flag"
+  pure { ok := ok == "1", scheme := ← hx sch, host := ← hx host }
+
+def parseOp (ext : Ext) (faultsOK : Bool) (s : String) : Except String Op := do
+  match s.splitOn ":" with
+  | ["a", n] =>
+    match n.toNat? with
+    | some d => if d > 100000 then throw "outside-domain: advance" else pure (.adv d)
+    | none => throw "outside-domain: advance"
+  | ["r", m, ck, sc, hdr, qry, form, param, custom, og, ook, osch, ohost, rf, rok, rsch, rhost, host, https, del, faults] =>
+    let me := b m
+    if !(["GET", "HEAD", "OPTIONS", "TRACE", "POST", "PUT", "DELETE", "PATCH"].contains m) then
+      throw "outside-domain: method"
+    let q : Req := {
+      method := me, ck := ← hx ck, sc := ← hx sc, hdr := ← hx hdr, qry := ← hx qry, form := ← hx form,
+      param := ← hx param, custom := ← hx custom, origin := ← hx og, ourl := ← parseUrl ook osch ohost,
+      referer := ← hx rf, rurl := ← parseUrl rok rsch rhost, host := ← hx host,
+      https := https == "1", del := del == "1",
+      failGet := faults.contains 'g', failSet := faults.contains 's', failDel := faults.contains 'd' }
+    if https != "0" && https != "1" then throw "outside-domain: https flag"
+    if del != "0" && del != "1" then throw "outside-domain: del flag"
+    if !(faults == "-" || faults.all fun c => c == 'g' || c == 's' || c == 'd') then throw "outside-domain: faults"
+    if faults != "-" && !faultsOK then throw "outside-domain: faults on this back-end"
+    if q.host = [] then throw "outside-domain: empty Host"
+    if !(isAscii q.origin && isAscii q.referer && isAscii q.host) then throw "outside-domain: non-ascii header"
+    if !(tokenSafe q.ck && tokenSafe q.sc && tokenSafe q.hdr && tokenSafe q.qry && tokenSafe q.form &&
+         tokenSafe q.param && tokenSafe q.custom) then throw "outside-domain: token alphabet"
+    if ext = .param && q.param = [] then throw "outside-domain: empty route parameter"
+    pure (.req q)
+  | _ => throw "outside-domain: malformed op"
+
+def optTok : Option Bytes → String
+  | none => "none"
+  | some [] => "exp"
+  | some v => toHex v
+
+def plusList (l : List Bytes) : String :=
+  if l.isEmpty then "-" else "+".intercalate (l.map toHex)
+
+def insertSorted (x : String) : List String → List String
+  | [] => [x]
+  | y :: ys => if x < y then x :: y :: ys else y :: insertSorted x ys
+
+def sortStrings (l : List String) : List String := l.foldr insertSorted []
+
+def renderLive (mem : Bool) (cfg : Cfg) (st : St) : String :=
+  if mem then "?" else
+  let items : List String := match cfg.backend with
+    | .storage => (st.store.filter fun e => st.now < e.2).map fun e => s!"{toHex e.1}@{e.2}"
+    | _ => st.sess.map fun e => match e.2 with
+      | some t => s!"{toHex e.1}/{toHex t.key}@{t.exp}"
+      | none => s!"{toHex e.1}/none@0"
+  if items.isEmpty then "-" else "+".intercalate (sortStrings items)
+
+def firedStr (r : Resp) : String :=
+  let s := (if r.fg then "g" else "") ++ (if r.fs then "s" else "") ++ (if r.fd then "d" else "")
+  if s.isEmpty then "-" else s
+
+def renderResp (mem : Bool) (cfg : Cfg) (st : St) (r : Resp) : String :=
+  s!"{if r.pass then 1 else 0},{r.status},{optTok r.ck},{match r.sc with | none => "none" | some v => toHex v}," ++
+  s!"{plusList r.gens},{plusList r.sgens},{firedStr r},{renderLive mem cfg st}"
+
+def runModel (mem : Bool) (cfg : Cfg) : St → List Op → List String
+  | _, [] => []
+  | st, o :: os =>
+    match o with
+    | .adv d => "-" :: runModel mem cfg { st with now := st.now + d } os
+    | .req q =>
+      let (st', r) := handle cfg tokGen sidGen st q
+      renderResp mem cfg st' r :: runModel mem cfg st' os
+
+def parseLive (s : String) : Except String (Option (List LiveItem)) := do
+  if s == "?" then return none
+  if s == "-" then return some []
+  let items ← (s.splitOn "+").mapM fun it => do
+    match it.splitOn "@" with
+    | [k, d] =>
+      let dn := if d == "inf" then 1000000000 else d.toNat?.getD 0
+      match k.splitOn "/" with
+      | [tk] => pure ({ sid := [], tok := some (← hx tk), deadline := dn } : LiveItem)
+      | [sid, tk] =>
+        if tk == "none" || tk == "undecodable" then pure { sid := ← hx sid, tok := none, deadline := 0 }
+        else pure { sid := ← hx sid, tok := some (← hx tk), deadline := dn }
+      | _ => throw "bad live item"
+    | _ => throw "bad live item"
+  return some items
+
+def parsePlus (s : String) : Except String (List Bytes) :=
+  if s == "-" then pure [] else (s.splitOn "+").mapM hx
+
+def parseObs (s : String) : Except String Obs := do
+  match s.splitOn "," with
+  | [p, st, ck, sc, g, sg, fr, lv] =>
+    let ckv ← (if ck == "none" then pure none else if ck == "exp" then pure (some []) else do pure (some (← hx ck)))
+    let scv ← (if sc == "none" then pure none else do pure (some (← hx sc)))
+    pure { pass := p == "1", status := st.toNat?.getD 0, ck := ckv, sc := scv, gens := ← parsePlus g,
+           sgens := ← parsePlus sg, fired := fr != "-", live := ← parseLive lv }
+  | _ => throw "bad observation"
+
+def extOf : String → Option Ext
+  | "header" => some .header | "form" => some .form | "query" => some .query
+  | "param" => some .param | "cookie" => some .cookie | "custom" => some .custom | _ => none
+
+def trustedCharOK (c : Nat) : Bool :=
+  isAlpha c || isDigit c || c == 58 || c == 47 || c == 46 || c == 42 || c == 45 || c == 32 || c == 63 || c == 61
+
+def handleCase (f : List String) : Except String Verdict := do
+  match f with
+  | [id, be, ext, single, idle, trusted, ops, impl] =>
+    let some ext := extOf ext | throw "outside-domain: extractor"
+    let (backend, mem) ← match be with
+      | "st" => pure (Backend.storage, false) | "mem" => pure (Backend.storage, true)
+      | "ss" => pure (Backend.sessStore, false) | "sm" => pure (Backend.sessMw, false)
+      | _ => throw "outside-domain: backend"
+    let some idle := idle.toNat? | throw "outside-domain: idle"
+    if idle = 0 || idle > 3600 then throw "outside-domain: idle"
+    let some raw := hexList trusted | throw "outside-domain: trusted"
+    if !(raw.all fun o => o.all trustedCharOK) then throw "outside-domain: trusted origin alphabet"
+    let opl ← (if ops == "-" then pure [] else (ops.splitOn ";").mapM (parseOp ext (be == "st" || be == "ss")))
+    let total := opl.foldl (fun acc o => match o with | .adv d => acc + d | _ => acc) 0
+    if total > 80000 then throw "outside-domain: history longer than the session lifetime"
+    match buildLoop raw [] [] with
+    | none =>
+      pure { id := id, modelObs := "panic", implObs := impl, spec := none, tags := ["ctor-panic"] }
+    | some (os, ss) =>
+      let cfg : Cfg := { backend := backend, ext := ext, single := single == "1", idle := idle, origins := os, subs := ss }
+      let mo := runModel mem cfg {} opl
+      let modelObs := if mo.isEmpty then "-" else ";".intercalate mo
+      let (spec, tags) ←
+        if impl == "panic" then pure (some "constructor-panicked-on-valid-config", ([] : List String))
+        else do
+          let obsl ← (if impl == "-" then pure [] else (impl.splitOn ";").mapM fun s =>
+            if s == "-" then pure none else if s == "panic" then pure (some panicObs) else (parseObs s).map some)
+          if obsl.length != opl.length then pure (some "observation-count", [])
+          else pure (specRun (specConfig backend ext (single == "1") idle raw) specInit opl obsl, specTags cfg opl obsl)
+      pure { id := id, modelObs := modelObs, implObs := impl, spec := spec, tags := [be, toString (repr ext)] ++ tags }
+  | _ => throw s!"outside-domain: expected 8 fields, got {f.length}"
+
+def main : IO Unit := run handleCase
